@@ -377,6 +377,21 @@ func (c *Ctx) RCONPolarity() []core.Ob {
 	o := polOb(c, "rcon.AcceptLogin:success-iff-password-equal", "AcceptLogin echoes the request id and returns nil only on the password-equal edge; on the other edge it writes id -1 and returns an error", fn)
 	var pwIf *ssa.If
 	var pwCmp *ssa.BinOp
+	_ = pwCmp
+	var pwCmpVal *ssa.BinOp
+	for _, b := range fn.Blocks {
+		for _, in := range b.Instrs {
+			if cmp, ok := in.(*ssa.BinOp); ok && (cmp.Op == token.EQL || cmp.Op == token.NEQ) {
+				if bt, ok := cmp.X.Type().Underlying().(*types.Basic); ok && bt.Kind() == types.String {
+					for _, p := range fn.Params[1:] {
+						if cmp.X == ssa.Value(p) || cmp.Y == ssa.Value(p) {
+							pwCmpVal = cmp
+						}
+					}
+				}
+			}
+		}
+	}
 	for _, b := range fn.Blocks {
 		if len(b.Instrs) == 0 {
 			continue
@@ -401,40 +416,73 @@ func (c *Ctx) RCONPolarity() []core.Ob {
 			pwIf, pwCmp = iff, cmp
 		}
 	}
-	if pwIf == nil {
+	if pwIf == nil && pwCmpVal == nil {
 		o.Status, o.Got = core.Violated, "no comparison of the received payload with the password parameter"
 		obs = append(obs, o)
 	} else {
-		succ, fail := edgeTarget(pwIf.Block(), true, pwCmp)
-		nilB, _ := nilErrReturns(fn, 0)
+		// decided by a case split on the comparison itself, whatever the shape of the code around it
+		// (two branches, a flag tested twice, a reply id chosen first and written once): with the
+		// comparison assumed true / false, which replies are written and which returns are reached?
+		cmpV := pwCmpVal
+		type outcome struct {
+			ids          []AV
+			mayNil, rets int
+		}
+		run := func(equal bool) outcome {
+			var oc outcome
+			truth := equal
+			if cmpV.Op == token.NEQ {
+				truth = !equal
+			}
+			tv := int64(0)
+			if truth {
+				tv = 1
+			}
+			t := c.TLG()
+			t.ProbeAssume(fn, cmpV, AV{P: ivOf(tv, tv)}, func(in ssa.Instruction, eval func(ssa.Value) AV, _ func(string) (AV, bool)) {
+				switch x := in.(type) {
+				case ssa.CallInstruction:
+					if strings.HasSuffix(calleeName(x.Common()), "net.(RCONConn).WritePacket") && len(x.Common().Args) > 1 {
+						oc.ids = append(oc.ids, eval(x.Common().Args[1]))
+					}
+				case *ssa.Return:
+					if !cmpV.Block().Dominates(x.Block()) || len(x.Results) == 0 {
+						return
+					}
+					oc.rets++
+					if !t.ProbeErrNonNil(x.Results[len(x.Results)-1]) {
+						oc.mayNil++
+					}
+				}
+			})
+			return oc
+		}
+		isMinusOne := func(av AV) bool {
+			all := av.all()
+			return all != nil && all.Lo != nil && all.Hi != nil && all.Lo.Cmp(bi(-1)) == 0 && all.Hi.Cmp(bi(-1)) == 0
+		}
+		eq, ne := run(true), run(false)
 		bad := ""
-		for _, nb := range nilB {
-			if !(len(succ.Preds) == 1 && succ.Dominates(nb)) {
-				bad = "a nil error is returned on a path that does not pass the password-equal edge"
-			}
+		switch {
+		case eq.mayNil == 0:
+			bad = "AcceptLogin never returns nil when the password is equal"
+		case len(eq.ids) == 0:
+			bad = "no reply is written when the password is equal"
+		case ne.mayNil > 0:
+			bad = "the password-mismatch case reaches a return that may carry a nil error"
+		case len(ne.ids) == 0:
+			bad = "no rejection reply is written when the password differs"
 		}
-		if len(nilB) == 0 {
-			bad = "AcceptLogin never returns nil"
-		}
-		// WritePacket first arguments on each side
-		for _, ci := range callsIn(fn, func(n string, _ *ssa.CallCommon) bool { return strings.HasSuffix(n, "net.(RCONConn).WritePacket") }) {
-			id := ci.Common().Args[1]
-			v, isConst := constIntVal(id)
-			inFail := len(fail.Preds) == 1 && fail.Dominates(ci.Block())
-			inSucc := len(succ.Preds) == 1 && succ.Dominates(ci.Block())
-			switch {
-			case inFail && !(isConst && v == -1):
-				bad = "the rejection reply does not carry request id -1"
-			case inSucc && isConst:
+		for _, id := range eq.ids {
+			if isMinusOne(id) {
+				bad = "the acceptance reply carries id -1 instead of echoing the request id"
+			} else if all := id.all(); all != nil && all.Lo != nil && all.Hi != nil && all.Lo.Cmp(all.Hi) == 0 {
 				bad = "the acceptance reply carries a constant id instead of echoing the request id"
-			case !inFail && !inSucc:
-				bad = "a reply is written outside both edges of the password test"
 			}
 		}
-		// the fail edge must not reach a nil return
-		for _, nb := range nilB {
-			if fail == nb || (len(fail.Preds) == 1 && fail.Dominates(nb)) {
-				bad = "the password-mismatch edge reaches a nil return"
+		for _, id := range ne.ids {
+			if !isMinusOne(id) {
+				bad = "the rejection reply does not carry request id -1"
 			}
 		}
 		if bad != "" {
@@ -505,15 +553,37 @@ func idEqualityGuardsNil(fn *ssa.Function, errIdx int) string {
 		if !ok || (cm.Op != token.EQL && cm.Op != token.NEQ) {
 			continue
 		}
-		isReq := func(v ssa.Value) bool { return loadsField(v, "ReqID") }
-		isRead := func(v ssa.Value) bool {
+		var isReq func(v ssa.Value) bool
+		// a parameter of a helper stands for what every call site in the package passes
+		origins := func(v ssa.Value) []ssa.Value {
 			v = stripLoadOfLocal(v)
-			ex, ok := v.(*ssa.Extract)
-			if !ok || ex.Index != 0 {
-				return false
+			if p, ok := v.(*ssa.Parameter); ok && p.Parent() == fn {
+				if as := paramArgs(fn, p); len(as) > 0 {
+					return as
+				}
 			}
-			cl, ok := ex.Tuple.(*ssa.Call)
-			return ok && strings.HasSuffix(calleeName(cl.Common()), "net.(RCONConn).ReadPacket")
+			return []ssa.Value{v}
+		}
+		isRead := func(v ssa.Value) bool {
+			for _, o := range origins(v) {
+				ex, ok := stripLoadOfLocal(o).(*ssa.Extract)
+				if !ok || ex.Index != 0 {
+					return false
+				}
+				cl, ok := ex.Tuple.(*ssa.Call)
+				if !ok || !strings.HasSuffix(calleeName(cl.Common()), "net.(RCONConn).ReadPacket") {
+					return false
+				}
+			}
+			return true
+		}
+		isReq = func(v ssa.Value) bool {
+			for _, o := range origins(v) {
+				if !loadsField(o, "ReqID") {
+					return false
+				}
+			}
+			return true
 		}
 		if (isReq(cm.X) && isRead(cm.Y)) || (isReq(cm.Y) && isRead(cm.X)) {
 			iff, cmp = i, cm
@@ -729,4 +799,50 @@ func sameOrigin(a, b ssa.Value) bool {
 		}
 	}
 	return false
+}
+
+// paramArgs: the values passed for parameter p at every static call of fn in its package.
+func paramArgs(fn *ssa.Function, p *ssa.Parameter) []ssa.Value {
+	idx := -1
+	for i, q := range fn.Params {
+		if q == p {
+			idx = i
+		}
+	}
+	if idx < 0 || fn.Pkg == nil {
+		return nil
+	}
+	var out []ssa.Value
+	var visit func(g *ssa.Function)
+	seen := map[*ssa.Function]bool{}
+	visit = func(g *ssa.Function) {
+		if g == nil || seen[g] {
+			return
+		}
+		seen[g] = true
+		for _, b := range g.Blocks {
+			for _, in := range b.Instrs {
+				if ci, ok := in.(ssa.CallInstruction); ok && ci.Common().StaticCallee() == fn && idx < len(ci.Common().Args) {
+					out = append(out, ci.Common().Args[idx])
+				}
+			}
+		}
+		for _, an := range g.AnonFuncs {
+			visit(an)
+		}
+	}
+	for _, m := range fn.Pkg.Members {
+		switch x := m.(type) {
+		case *ssa.Function:
+			visit(x)
+		case *ssa.Type:
+			for _, t := range []types.Type{x.Type(), types.NewPointer(x.Type())} {
+				ms := fn.Prog.MethodSets.MethodSet(t)
+				for i := 0; i < ms.Len(); i++ {
+					visit(fn.Prog.MethodValue(ms.At(i)))
+				}
+			}
+		}
+	}
+	return out
 }
